@@ -987,6 +987,610 @@ static void caseC05(long long k, Rng& g)
    S.end(k);
 }
 
+// ------------------------------------------------------------------------------------------------ C16
+struct Baseline
+{
+   int st = 0, iters = 0;
+   double v = 0;
+};
+static void applyCommon(SoPlex& sp, const ParamSet& cfg, const LPModel& M, int loadMode)
+{
+   quiet(sp);
+   cfg.apply(sp);
+   loadReal(sp, M, loadMode);
+}
+static Baseline baselineSolve(const Instance& I, const ParamSet& cfg, int loadMode)
+{
+   SoPlex sp;
+   applyCommon(sp, cfg, I.M, loadMode);
+   sp.optimize();
+   Baseline b;
+   b.st = (int)sp.status();
+   b.iters = sp.numIterations();
+   b.v = sp.hasSol() ? sp.objValueReal() : 0;
+   return b;
+}
+// parses the iteration column of the solver's per-iteration log line: " L  |    0.0 |       3 | ..."
+static int parseIterLine(const std::string& line)
+{
+   size_t a = line.find('|');
+   if(a == std::string::npos || a > 8) return -1;
+   size_t b = line.find('|', a + 1);
+   if(b == std::string::npos) return -1;
+   size_t c = line.find('|', b + 1);
+   if(c == std::string::npos) return -1;
+   std::string f = line.substr(b + 1, c - b - 1);
+   char* e = nullptr;
+   long v = strtol(f.c_str(), &e, 10);
+   if(e == f.c_str()) return -1;
+   while(*e == ' ') e++;
+   if(*e != 0) return -1;
+   return (int)v;
+}
+
+// mode: 0 iteration limit k, 1 interrupt at iteration k, 2 time limit zero/tiny, 3 objective limit (k encodes the variant 0..5)
+static C04Res c16Once(const Instance& I, const ParamSet& cfg, int loadMode, int mode, int k, bool count, const Baseline* known = nullptr)
+{
+   Sink& S = sink();
+   C04Res R;
+   const LPModel& M = I.M;
+   Baseline base = known ? *known : baselineSolve(I, cfg, loadMode);
+   if(!definiteStatus(base.st)) return R;     // baseline itself undecided: nothing to compare with (C01/C02 territory)
+   if(I.T.known && I.T.robust)
+   {
+      int tst = I.T.status == REF_OPTIMAL ? (int)SPX::OPTIMAL : I.T.status == REF_INFEASIBLE ? (int)SPX::INFEASIBLE : (int)SPX::UNBOUNDED;
+      if(!sameVerdict(base.st, tst)) return R;
+   }
+   else return R;     // stop/resume equivalence is judged only on instances with certified, tolerance-robust class
+   SoPlex sp;
+   applyCommon(sp, cfg, M, loadMode);
+   volatile bool flag = false;
+   LogCapture lc;
+   int expectAbort = 0;
+   std::string mname;
+   if(mode == 0)
+   {
+      mname = "iterlimit";
+      sp.setIntParam(SoPlex::ITERLIMIT, k, true);
+      expectAbort = SPX::ABORT_ITER;
+      sp.optimize();
+   }
+   else if(mode == 1)
+   {
+      mname = "interrupt";
+      lc.attach(sp, 3);
+      sp.setIntParam(SoPlex::DISPLAYFREQ, 1, true);
+      lc.buf.onLine = [&](const std::string & line)
+      {
+         int it = parseIterLine(line);
+         if(it >= k) flag = true;
+      };
+      expectAbort = SPX::ABORT_TIME;
+      sp.optimize(&flag);
+   }
+   else if(mode == 2)
+   {
+      mname = "timelimit";
+      sp.setRealParam(SoPlex::TIMELIMIT, k == 0 ? 0.0 : 1e-9, true);
+      if(k >= 2) sp.setIntParam(SoPlex::TIMER, k == 2 ? SoPlex::TIMER_WALLCLOCK : SoPlex::TIMER_CPU, true);
+      expectAbort = SPX::ABORT_TIME;
+      sp.optimize();
+   }
+   else
+   {
+      mname = "objlimit";
+      if(base.st != SPX::OPTIMAL) return R;
+      static const double fr[3] = {1e-3, 1.0, 10.0};
+      double delta = fr[k % 3] * (std::fabs(base.v) + 1.0);
+      bool beyond = k >= 3;     // true: the optimum lies beyond the limit (ABORT_VALUE allowed)
+      // minimisation: OBJLIMIT_UPPER; optimum beyond the limit means v > limit.  maximisation: OBJLIMIT_LOWER, v < limit.
+      double limit = M.sense < 0 ? (beyond ? base.v - delta : base.v + delta) : (beyond ? base.v + delta : base.v - delta);
+      sp.setRealParam(M.sense < 0 ? SoPlex::OBJLIMIT_UPPER : SoPlex::OBJLIMIT_LOWER, limit, true);
+      sp.optimize();
+      int st = (int)sp.status();
+      if(count) S.count(std::string("c16.objlimit.") + (beyond ? "beyond." : "harmless.") + statusName(st));
+      if(!beyond)
+      {
+         if(st == SPX::ABORT_VALUE)
+         {
+            R.set("objlimit.false-abort", "ABORT_VALUE although the optimum " + ds(base.v) + " does not lie beyond the limit " + ds(limit));
+            return R;
+         }
+         if(!sameVerdict(st, base.st))
+         {
+            R.set(std::string("objlimit.harmless-changes-status.") + statusName(st), "a limit on the harmless side changed the status");
+            return R;
+         }
+         double rel = std::fabs(sp.objValueReal() - base.v) / (1.0 + std::fabs(base.v));
+         if(rel > 1e-5)
+         {
+            R.set("objlimit.harmless-changes-value", "a limit on the harmless side changed the optimal value to " + ds(sp.objValueReal()));
+            return R;
+         }
+         return R;
+      }
+      if(st != SPX::ABORT_VALUE && !sameVerdict(st, base.st))
+      {
+         R.set(std::string("objlimit.status.") + statusName(st), "status with objective limit is neither ABORT_VALUE nor the true status");
+         return R;
+      }
+      if(st == SPX::ABORT_VALUE)
+      {
+         if(sp.hasBasis())
+         {
+            std::string r = monitorBasis(sp, M, true);
+            if(!r.empty())
+            {
+               R.set("objlimit.basis." + r.substr(0, r.find(':')), r.substr(r.find(':') + 1));
+               return R;
+            }
+         }
+         sp.setRealParam(M.sense < 0 ? SoPlex::OBJLIMIT_UPPER : SoPlex::OBJLIMIT_LOWER, M.sense < 0 ? soplex::infinity : -soplex::infinity, true);
+         sp.optimize();
+         if(count) S.count("c16.objlimit.resumed");
+         if((int)sp.status() != SPX::OPTIMAL || std::fabs(sp.objValueReal() - base.v) / (1.0 + std::fabs(base.v)) > 1e-5)
+            R.set(std::string("objlimit.resume.") + statusName((int)sp.status()), "after lifting the objective limit: status " + std::string(statusName((
+                        int)sp.status())) + " value " + ds(sp.hasSol() ? sp.objValueReal() : 0.0) + ", expected OPTIMAL " + ds(base.v));
+      }
+      return R;
+   }
+   int st = (int)sp.status();
+   int its = sp.numIterations();
+   if(count)
+   {
+      S.count("c16." + mname + ".stops");
+      S.count("c16." + mname + ".stopped." + statusName(st));
+      if(st == expectAbort) S.count("c16." + mname + ".stopped_inside_solve");
+      S.seen("stoppoints", fnv(mname) ^ (uint64_t)k * 1315423911ULL ^ I.M.signature());
+   }
+   // honest status
+   if(st != expectAbort)
+   {
+      if(!definiteStatus(st))
+      {
+         R.set(mname + ".status." + statusName(st), std::string("stopped solve returned ") + statusName(st) + " (expected " + statusName(
+                  expectAbort) + " or the true status)");
+         return R;
+      }
+      if(!sameVerdict(st, base.st))
+      {
+         R.set(mname + ".wrong-verdict." + statusName(st), std::string("stopped solve claims ") + statusName(st) + " but the LP is " + statusName(
+                  base.st));
+         return R;
+      }
+   }
+   if(mode == 0)
+   {
+      if(count) S.maxi("c16.iterlimit.overshoot", (double)(its - k));
+      if(its > k)
+      {
+         R.set("iterlimit.overshoot", std::to_string(its) + " iterations performed with iteration limit " + std::to_string(k));
+         return R;
+      }
+   }
+   if(sp.hasBasis())
+   {
+      if(count) S.count("c16.basis_after_stop_checked");
+      std::string r = monitorBasis(sp, M, true);
+      if(!r.empty())
+      {
+         R.set(mname + ".basis." + r.substr(0, r.find(':')), r.substr(r.find(':') + 1));
+         return R;
+      }
+   }
+   // resume with the limit lifted
+   if(mode == 0) sp.setIntParam(SoPlex::ITERLIMIT, -1, true);
+   if(mode == 2) sp.setRealParam(SoPlex::TIMELIMIT, soplex::infinity, true);
+   flag = false;
+   lc.buf.onLine = nullptr;
+   sp.optimize();
+   int st2 = (int)sp.status();
+   if(count) S.count("c16." + mname + ".resumed");
+   if(!sameVerdict(st2, base.st))
+   {
+      R.set(mname + ".resume." + statusName(st2), std::string("after lifting the limit the solve ends ") + statusName(st2) + ", uninterrupted " + statusName(
+               base.st) + " (stopped with " + statusName(st) + " after " + std::to_string(its) + " iterations)");
+      return R;
+   }
+   if(st2 == SPX::OPTIMAL && base.st == SPX::OPTIMAL)
+   {
+      double rel = std::fabs(sp.objValueReal() - base.v) / (1.0 + std::fabs(base.v));
+      if(count) S.maxi("c16.resumeObj/thr", rel / 1e-5);
+      if(rel > 1e-5) R.set(mname + ".resume.objective", "after lifting the limit the optimal value is " + ds(sp.objValueReal()) + ", uninterrupted " + ds(
+                                 base.v));
+   }
+   return R;
+}
+
+static void caseC16(long long k, Rng& g)
+{
+   Sink& S = sink();
+   static const std::vector<std::string> fams = {"planted-opt", "degenerate", "planted-opt", "planted-infeasible", "planted-unbounded", "arbitrary"};
+   std::string fam = fams[(size_t)(k % (long long)fams.size())];
+   int mx = g.pick(std::vector<int> {8, 14, 14, 22, 30});
+   Instance I = genFamily(g, fam, mx, mx);
+   ParamSet cfg = randomAlgConfig(g, 0.12);
+   // the property's explicit cross: primal/dual x row/column x simplifier on/off
+   cfg.i[SoPlex::ALGORITHM] = (int)((k / 6) % 2);
+   cfg.i[SoPlex::REPRESENTATION] = 1 + (int)((k / 12) % 2);
+   cfg.i[SoPlex::SIMPLIFIER] = ((k / 24) % 2) ? 3 : 0;
+   cfg.normalise();
+   int loadMode = g.range(0, 2);
+   S.begin(k, fam + " " + std::to_string(I.M.m) + "x" + std::to_string(I.M.n) + " " + cfg.key());
+   if(!allExactDoubles(I.M))
+   {
+      S.count("gen.inexact_skipped");
+      S.end(k);
+      return;
+   }
+   ensureTruth(I);
+   S.count("cases");
+   S.count("family." + fam);
+   Baseline base = baselineSolve(I, cfg, loadMode);
+   S.count(std::string("c16.baseline.") + statusName(base.st));
+   S.maxi("c16.baseline_iterations", base.iters);
+   S.seen("nontrivial", I.M.signature() ^ fnv(cfg.key()));
+   int N = base.iters;
+   std::vector<std::pair<int, int>> pts;   // (mode, k)
+   int cap = cli.thorough() ? 150 : 24;
+   for(int mode = 0; mode <= 1; mode++)
+   {
+      if(N + 1 <= cap) for(int t = 0; t <= N; t++) pts.push_back({mode, t});
+      else
+      {
+         std::set<int> chosen = {0, 1, N - 1, N};
+         while((int)chosen.size() < cap) chosen.insert(g.range(0, N));
+         for(int t : chosen) pts.push_back({mode, t});
+      }
+   }
+   for(int t = 0; t < 4; t++) pts.push_back({2, t});
+   for(int t = 0; t < 6; t++) pts.push_back({3, t});
+   bool reported = false;
+   for(auto& pt : pts)
+   {
+      C04Res r = c16Once(I, cfg, loadMode, pt.first, pt.second, true, &base);
+      S.count("c16.stop_points");
+      if(!r.tag.empty() && !reported)
+      {
+         reported = true;      // one finding per case is enough (keys are deduplicated anyway)
+         ParamSet mc;
+         std::string cell = cellKey(cfg, [&](const ParamSet & p)
+         {
+            return c16Once(I, p, loadMode, pt.first, pt.second, false).tag == r.tag;
+         }, &mc);
+         S.viol("C16:" + r.tag + ":" + cell, r.detail + " | stop point k=" + std::to_string(pt.second) + " of N=" + std::to_string(N) + ", family " + fam +
+                ", full config " + cfg.key(), replayJson(I.M, cfg, mc, loadMode));
+      }
+   }
+   if(k < 4) S.sample(Json().str("family", fam).num("m", I.M.m).num("n", I.M.n).str("config", cfg.key()).num("N", N).num("stop_points",
+                         (long long)pts.size()).done());
+   S.end(k);
+}
+
+// ------------------------------------------------------------------------------------------------ C17
+// full observable snapshot of a solver object as a string (bitwise for reals)
+static std::string hexd(double d)
+{
+   char b[24];
+   snprintf(b, sizeof b, "%016llx", (unsigned long long)dbits(d));
+   return b;
+}
+static std::string snapLP(SoPlex& sp)
+{
+   std::ostringstream o;
+   int m = sp.numRows(), n = sp.numCols();
+   o << m << "x" << n << " nnz" << sp.numNonzeros() << " sense" << sp.intParam(SoPlex::OBJSENSE) << "|";
+   for(int i = 0; i < m; i++)
+   {
+      o << hexd(sp.lhsReal(i)) << hexd(sp.rhsReal(i)) << ":";
+      DSVectorReal r;
+      sp.getRowVectorReal(i, r);
+      std::vector<std::pair<int, double>> e;
+      for(int t = 0; t < r.size(); t++) e.push_back({r.index(t), r.value(t)});
+      std::sort(e.begin(), e.end());
+      for(auto& p : e) o << p.first << "=" << hexd(p.second) << ",";
+      o << ";";
+   }
+   for(int j = 0; j < n; j++) o << hexd(sp.lowerReal(j)) << hexd(sp.upperReal(j)) << hexd(sp.objReal(j)) << ";";
+   return o.str();
+}
+static std::string snapParams(SoPlex& sp)
+{
+   std::ostringstream o;
+   for(int i = 0; i < SoPlex::BOOLPARAM_COUNT; i++) o << sp.boolParam((SoPlex::BoolParam)i);
+   o << "|";
+   for(int i = 0; i < SoPlex::INTPARAM_COUNT; i++) o << sp.intParam((SoPlex::IntParam)i) << ",";
+   o << "|";
+   for(int i = 0; i < SoPlex::REALPARAM_COUNT; i++) o << hexd(sp.realParam((SoPlex::RealParam)i)) << ",";
+   o << "|seed" << sp.randomSeed();
+   // derived tolerance state that a user can observe through tolerances()
+   o << "|tol" << hexd(sp.tolerances()->epsilon()) << hexd(sp.tolerances()->floatingPointFeastol()) << hexd(
+        sp.tolerances()->floatingPointOpttol()) << hexd(sp.tolerances()->epsilonFactorization()) << hexd(sp.tolerances()->epsilonUpdate()) << hexd(
+        sp.tolerances()->epsilonPivot());
+   return o.str();
+}
+static std::string snapSol(SoPlex& sp, bool withIters = true)
+{
+   std::ostringstream o;
+   int m = sp.numRows(), n = sp.numCols();
+   o << "st" << (int)sp.status() << " hasSol" << sp.hasSol() << " hasBasis" << sp.hasBasis();
+   if(withIters) o << " it" << sp.numIterations();
+   o << "|";
+   if(sp.hasBasis())
+   {
+      std::vector<VarStatus> a(m + 1), b(n + 1);
+      sp.getBasis(a.data(), b.data());
+      for(int i = 0; i < m; i++) o << (int)a[i];
+      o << "/";
+      for(int j = 0; j < n; j++) o << (int)b[j];
+   }
+   o << "|";
+   if(sp.hasSol())
+   {
+      VectorReal x(n), sl(m), y(m), r(n);
+      if(sp.getPrimal(x)) for(int j = 0; j < n; j++) o << hexd(x[j]);
+      o << "/";
+      if(sp.getSlacksReal(sl)) for(int i = 0; i < m; i++) o << hexd(sl[i]);
+      o << "/";
+      if(sp.getDual(y)) for(int i = 0; i < m; i++) o << hexd(y[i]);
+      o << "/";
+      if(sp.getRedCost(r)) for(int j = 0; j < n; j++) o << hexd(r[j]);
+      o << "/" << hexd(sp.objValueReal());
+   }
+   if(sp.hasPrimalRay())
+   {
+      VectorReal d(n);
+      if(sp.getPrimalRay(d)) for(int j = 0; j < n; j++) o << hexd(d[j]);
+   }
+   if(sp.hasDualFarkas())
+   {
+      VectorReal d(m);
+      if(sp.getDualFarkas(d)) for(int i = 0; i < m; i++) o << hexd(d[i]);
+   }
+   return o.str();
+}
+static std::string firstDiff(const std::string& a, const std::string& b)
+{
+   size_t i = 0;
+   while(i < a.size() && i < b.size() && a[i] == b[i]) i++;
+   size_t s0 = i > 30 ? i - 30 : 0;
+   return "at offset " + std::to_string(i) + ": '" + a.substr(s0, 70) + "' vs '" + b.substr(s0, 70) + "'";
+}
+// solution snapshot without the iteration count / status prefix fields?  No: the property demands equal iteration counts too.
+
+static void randomModification(Rng& g, SoPlex& sp)
+{
+   int m = sp.numRows(), n = sp.numCols();
+   int w = g.range(0, 7);
+   if(w == 0 && n > 0) sp.changeObjReal(g.range(0, n - 1), (double)g.range(-9, 9));
+   else if(w == 1 && n > 0)
+   {
+      int j = g.range(0, n - 1);
+      double lo = g.range(-5, 5);
+      sp.changeBoundsReal(j, lo, lo + g.range(0, 6));
+   }
+   else if(w == 2 && m > 0)
+   {
+      int i = g.range(0, m - 1);
+      double lo = g.range(-9, 9);
+      sp.changeRangeReal(i, lo, lo + g.range(0, 9));
+   }
+   else if(w == 3 && m > 0 && n > 0) sp.changeElementReal(g.range(0, m - 1), g.range(0, n - 1), (double)g.range(-5, 5));
+   else if(w == 4 && n > 0)
+   {
+      DSVectorReal c(m + 1);
+      for(int i = 0; i < m; i++) if(g.chance(0.4)) c.add(i, (double)smallNonzero(g, 5));
+      sp.addColReal(LPColReal((double)g.range(-5, 5), c, (double)g.range(3, 9), (double)g.range(-3, 2)));
+   }
+   else if(w == 5)
+   {
+      DSVectorReal r(n + 1);
+      for(int j = 0; j < n; j++) if(g.chance(0.4)) r.add(j, (double)smallNonzero(g, 5));
+      sp.addRowReal(LPRowReal((double)g.range(-9, 0), r, (double)g.range(1, 9)));
+   }
+   else if(w == 6 && m > 1) sp.removeRowReal(g.range(0, m - 1));
+   else if(n > 1) sp.removeColReal(g.range(0, n - 1));
+}
+static void randomParamChange(Rng& g, SoPlex& sp)
+{
+   int w = g.range(0, 6);
+   if(w == 0) sp.setRealParam(SoPlex::FEASTOL, g.pick(std::vector<double> {1e-5, 1e-7, 1e-8}));
+   else if(w == 1) sp.setRealParam(SoPlex::OPTTOL, g.pick(std::vector<double> {1e-5, 1e-7, 1e-8}));
+   else if(w == 2) sp.setRealParam(SoPlex::EPSILON_ZERO, g.pick(std::vector<double> {1e-14, 1e-12, 1e-18}));
+   else if(w == 3) sp.setIntParam(SoPlex::PRICER, g.range(0, 5));
+   else if(w == 4) sp.setIntParam(SoPlex::SCALER, g.pick(std::vector<int> {0, 1, 2, 3, 4, 6}));
+   else if(w == 5) sp.setRealParam(SoPlex::EPSILON_PIVOT, g.pick(std::vector<double> {1e-9, 1e-11}));
+   else sp.setBoolParam(SoPlex::ROWBOUNDFLIPS, g.chance(0.5));
+}
+
+static C04Res c17Once(const Instance& I, const ParamSet& cfg, int loadMode, uint64_t subseed, bool count)
+{
+   Sink& S = sink();
+   C04Res R;
+   Rng g(1717, subseed, 17);
+   const LPModel& M = I.M;
+   int scenario = g.range(0, 9);
+   auto mk = [&](SoPlex & sp)
+   {
+      applyCommon(sp, cfg, M, loadMode);
+      sp.setIntParam(SoPlex::ITERLIMIT, 100000, true);
+   };
+   if(scenario <= 2)
+   {
+      // twins
+      SoPlex a, b;
+      mk(a);
+      mk(b);
+      a.optimize();
+      b.optimize();
+      if(count) S.count("c17.twin_solves");
+      std::string sa = snapSol(a), sb = snapSol(b);
+      if(sa != sb) R.set("twins-differ", "two objects with the same LP, parameters and seed differ: " + firstDiff(sa, sb));
+      return R;
+   }
+   if(scenario <= 4)
+   {
+      // same object, clearBasis, solve again
+      SoPlex a;
+      mk(a);
+      a.optimize();
+      std::string s1 = snapSol(a);
+      a.clearBasis();
+      a.optimize();
+      std::string s2 = snapSol(a);
+      if(count) S.count("c17.resolve_after_clearBasis");
+      if(s1 != s2) R.set("resolve-after-clearBasis-differs", "solving the same unmodified object again after clearBasis() differs: " + firstDiff(s1, s2));
+      return R;
+   }
+   // copies: build a history on A, copy at a random point, compare, then test independence both ways
+   std::unique_ptr<SoPlex> A(new SoPlex());
+   mk(*A);
+   int point = g.range(0, 4);       // 0 before solve, 1 after solve, 2 after aborted solve, 3 after solve+modification, 4 after solve+clearBasis
+   if(point >= 1)
+   {
+      if(point == 2) A->setIntParam(SoPlex::ITERLIMIT, g.range(0, 4), true);
+      A->optimize();
+      if(point == 2) A->setIntParam(SoPlex::ITERLIMIT, 100000, true);
+      if(point == 3) randomModification(g, *A);
+      if(point == 4) A->clearBasis();
+   }
+   bool byAssign = g.chance(0.5);
+   std::unique_ptr<SoPlex> B;
+   if(byAssign)
+   {
+      B.reset(new SoPlex());
+      // assignment into a used object
+      quiet(*B);
+      Planted pp;
+      Rng g2(5, subseed, 1);
+      LPModel other = genPlantedOpt(g2, pp, 4, 4, false);
+      loadReal(*B, other, 0);
+      if(g.chance(0.5)) B->optimize();
+      *B = *A;
+   }
+   else B.reset(new SoPlex(*A));
+   const char* how = byAssign ? "assign" : "copyctor";
+   if(count) S.count(std::string("c17.copies.") + how + ".point" + std::to_string(point));
+   // equal
+   {
+      std::string la = snapLP(*A), lb = snapLP(*B);
+      if(la != lb)
+      {
+         R.set(std::string("copy-unequal.lp.") + how, "copy has a different LP: " + firstDiff(la, lb));
+         return R;
+      }
+      std::string pa = snapParams(*A), pb = snapParams(*B);
+      if(pa != pb)
+      {
+         R.set(std::string("copy-unequal.params.") + how, "copy has different parameters: " + firstDiff(pa, pb));
+         return R;
+      }
+      std::string sa = snapSol(*A, false), sb = snapSol(*B, false);
+      if(sa != sb)
+      {
+         R.set(std::string("copy-unequal.solution.") + how + ".point" + std::to_string(point), "copy has different status/basis/solution: " + firstDiff(sa,
+               sb));
+         return R;
+      }
+   }
+   // a re-solve of both gives identical results
+   if(g.chance(0.5))
+   {
+      A->optimize();
+      B->optimize();
+      if(count) S.count("c17.copy_resolve_compared");
+      std::string sa = snapSol(*A), sb = snapSol(*B);
+      if(sa != sb)
+      {
+         R.set(std::string("copy-resolve-differs.") + how + ".point" + std::to_string(point), "source and copy re-solved differ: " + firstDiff(sa, sb));
+         return R;
+      }
+   }
+   // independence: snapshot the victim, hammer the other, compare
+   bool victimIsCopy = g.chance(0.5);
+   SoPlex* V = victimIsCopy ? B.get() : A.get();
+   std::unique_ptr<SoPlex>& Hp = victimIsCopy ? A : B;
+   std::string vlp = snapLP(*V), vpar = snapParams(*V), vsol = snapSol(*V, false);
+   // what the victim's next solve should give: take it from an independent twin of the victim made BEFORE hammering
+   std::unique_ptr<SoPlex> W(new SoPlex(*V));
+   int nops = g.range(2, 8);
+   for(int t = 0; t < nops; t++)
+   {
+      int w = g.range(0, 5);
+      if(w <= 1) randomModification(g, *Hp);
+      else if(w == 2) randomParamChange(g, *Hp);
+      else if(w == 3) Hp->optimize();
+      else if(w == 4) Hp->clearBasis();
+      else Hp->setIntParam(SoPlex::OBJSENSE, -Hp->intParam(SoPlex::OBJSENSE));
+   }
+   bool destroyed = g.chance(0.5);
+   if(destroyed) Hp.reset();
+   if(count) S.count(std::string("c17.independence.") + (victimIsCopy ? "modify-source" : "modify-copy") + (destroyed ? ".destroy" : ""));
+   {
+      std::string a1 = snapLP(*V), a2 = snapParams(*V), a3 = snapSol(*V, false);
+      const char* dir = victimIsCopy ? "source-affects-copy" : "copy-affects-source";
+      if(a1 != vlp)
+      {
+         R.set(std::string("dependent.lp.") + dir, "LP of one object changed by operations on the other: " + firstDiff(vlp, a1));
+         return R;
+      }
+      if(a2 != vpar)
+      {
+         R.set(std::string("dependent.params.") + dir, "parameters/tolerances of one object changed by operations on the other: " + firstDiff(vpar, a2));
+         return R;
+      }
+      if(a3 != vsol)
+      {
+         R.set(std::string("dependent.solution.") + dir, "status/basis/solution of one object changed by operations on the other: " + firstDiff(vsol, a3));
+         return R;
+      }
+      V->optimize();
+      W->optimize();
+      std::string sv = snapSol(*V), sw = snapSol(*W);
+      if(count) S.count("c17.independence_next_solve_compared");
+      if(sv != sw) R.set(std::string("dependent.next-solve.") + dir, "next solve of the untouched object differs from that of its pristine twin: " + firstDiff(
+                               sw, sv));
+   }
+   return R;
+}
+
+static void caseC17(long long k, Rng& g)
+{
+   Sink& S = sink();
+   static std::vector<ParamSet> pw = pairwiseConfigs(cli.seed + 17);
+   static const std::vector<std::string> fams = {"planted-opt", "degenerate", "arbitrary", "presolve-rich", "planted-infeasible", "planted-unbounded", "badly-scaled"};
+   std::string fam = fams[(size_t)(k % (long long)fams.size())];
+   int mx = g.range(0, 9) == 0 ? 25 : 10;
+   Instance I = genFamily(g, fam, mx, mx);
+   ParamSet cfg = (k / 7) % 3 != 2 ? pw[(size_t)((k / 7) % (long long)pw.size())] : randomAlgConfig(g);
+   if(g.chance(0.25)) cfg = ParamSet();
+   int loadMode = g.range(0, 2);
+   uint64_t sub = g.next();
+   S.begin(k, fam + " " + std::to_string(I.M.m) + "x" + std::to_string(I.M.n) + " " + cfg.key());
+   if(!allExactDoubles(I.M))
+   {
+      S.count("gen.inexact_skipped");
+      S.end(k);
+      return;
+   }
+   S.count("cases");
+   S.count("family." + fam);
+   S.seen("cfg", fnv(cfg.key()));
+   S.seen("nontrivial", I.M.signature() ^ fnv(cfg.key()) ^ (sub % 1000));
+   C04Res r = c17Once(I, cfg, loadMode, sub, true);
+   if(!r.tag.empty())
+   {
+      ParamSet mc;
+      std::string cell = cellKey(cfg, [&](const ParamSet & p)
+      {
+         return c17Once(I, p, loadMode, sub, false).tag == r.tag;
+      }, &mc);
+      S.viol("C17:" + r.tag + ":" + cell, r.detail + " | family " + fam + ", full config " + cfg.key(), replayJson(I.M, cfg, mc, loadMode));
+   }
+   if(k < 4) S.sample(Json().str("family", fam).num("m", I.M.m).num("n", I.M.n).str("config", cfg.key()).done());
+   S.end(k);
+}
+
 int main(int argc, char** argv)
 {
    cli.parse(argc, argv);
@@ -1001,6 +1605,8 @@ int main(int argc, char** argv)
       else if(cli.prop == "C02") caseC02(k, g);
       else if(cli.prop == "C04") caseC04(k, g);
       else if(cli.prop == "C05") caseC05(k, g);
+      else if(cli.prop == "C16") caseC16(k, g);
+      else if(cli.prop == "C17") caseC17(k, g);
       else
       {
          fprintf(stderr, "h_solve: unknown property %s\n", cli.prop.c_str());
